@@ -68,7 +68,10 @@ func unmapActorProperties(mm map[string][]byte, a *Actor) error {
 			return err
 		}
 	}
-	if raw, ok := mm["endpoints"]; ok {
+	if raw, ok := mm["endpoints"]; ok && len(raw) > 0 {
+		if a.Endpoints == nil {
+			a.Endpoints = new(Endpoints)
+		}
 		if err = a.Endpoints.GobDecode(raw); err != nil {
 			return err
 		}
